@@ -6,6 +6,7 @@
 #include <stdlib.h>
 #include <string.h>
 #include <orc/orctarget.h>
+#include <orc/orcdebug.h>
 #include <orc/orcinternal.h>
 
 static OrcTarget *targets[ORC_N_TARGETS];
@@ -16,6 +17,11 @@ static OrcTarget *default_target;
 void
 orc_target_register (OrcTarget *target)
 {
+  if (n_targets >= ORC_N_TARGETS) {
+    ORC_ERROR ("too many targets, cannot register %s", target->name);
+    return;
+  }
+
   targets[n_targets] = target;
   n_targets++;
 
